@@ -36,12 +36,13 @@ ASSUMPTIONS = [
     "clause 'the receiver is never modified' is a Python-runtime clause (R): decided by comparing nodes()/edges() of the receiver before and after every call, not by a theorem (the model is pure)",
     "topological_sort / pre with the default order: the theorems say the result is a linear extension (resp. its prefix before the first member of S) for every insertion order, and that success does not depend on the insertion order; equality of the exact order with networkx is correspondence only",
     "intervene: node relabelling is modelled as a map f (injective for the edge characterisations); the harness decodes CounterfactualVariable nodes back to base names and checks their subscripts separately",
-    "get_nodes_in_directed_paths: the property text does not say whether a path without edges counts. The theorems state what each implementation returns (nodesInDirectedPaths_spec): on acyclic graphs the nodes on directed paths with >= 1 edge (a member of S & T is returned only if it lies on such a path; non-node arguments are ignored), on graphs with a directed cycle the nodes on simple directed paths including the trivial path [s] for s in S & T (non-node arguments raise NodeNotFound when both sets are non-empty). The oracle asserts exactly this; the discrepancy between the two branches on S & T is reported, not repaired",
+    "get_nodes_in_directed_paths: the definition proved and checked is 'nodes on simple directed paths with at least one edge from S to T' (nodesInDirectedPaths_spec, both implementations, after fix 2ae6e11). Arguments that are not nodes are outside the property's quantifier; what the code does with them (ignored on acyclic graphs, NodeNotFound on cyclic ones when both sets are non-empty) is stated by nodesInDirectedPaths_dag_spec / nodesInDirectedPaths_cyclic_error and compared by correspondence only",
     "theorems are about well-formed graphs (MG.WF: distinct nodes, distinct directed edges, edge endpoints are nodes), which is what from_edges guarantees (wf_fromEdges); graphs mutated behind the API are outside the claim",
 ]
 EXHAUSTIVE = {"quick": False, "thorough": True}
-QUICK_RANDOM = 65000
-QUICK_STRUCTURED = 35000
+ESCALATED_TIER = "escalated"   # quick tier when graph.py changed since integration: quick stream + the exhaustive slice
+QUICK_RANDOM = 40000
+QUICK_STRUCTURED = 30000
 LEANCHECK_MODULES = ["Y0.Model.Graph", "Y0.Props.C14"]
 
 OPS_SET = ["subgraph", "remove_in_edges", "remove_out_edges", "remove_nodes_from", "intervene",
@@ -61,6 +62,13 @@ CORPUS = [
     {"op": "districts", "g": {"nodes": [5], "di": [[0, 1]], "bi": [[1, 2], [3, 0]]}},
     {"op": "topological_sort", "g": {"nodes": [], "di": [[0, 1], [1, 2], [2, 0]], "bi": []}},
     {"op": "nodes_in_directed_paths", "g": {"nodes": [], "di": [[0, 1], [1, 2], [2, 1], [2, 3]], "bi": []}, "S": [0], "T": [3]},
+    # witness of fix 2ae6e11: an unrelated cycle made f(G, {A}, {A}) return {A}; both must be empty
+    {"op": "nodes_in_directed_paths", "g": {"nodes": [], "di": [[0, 1], [2, 3], [3, 2]], "bi": []}, "S": [0], "T": [0]},
+    {"op": "nodes_in_directed_paths", "g": {"nodes": [], "di": [[0, 1], [2, 3]], "bi": []}, "S": [0], "T": [0]},
+    {"op": "nodes_in_directed_paths", "g": {"nodes": [2], "di": [[0, 1], [1, 0]], "bi": []}, "S": [2], "T": [2]},
+    # seeded change C14a (a child already in the blanket was skipped): N=0, C1=1, C2=2, W=3
+    {"op": "get_markov_blanket", "g": {"nodes": [], "di": [[0, 1], [0, 2], [2, 1], [3, 2]], "bi": []}, "S": [0]},
+    {"op": "get_markov_blanket", "g": {"nodes": [4, 6, 5, 3], "di": [[6, 3], [3, 4], [5, 3]], "bi": []}, "S": [6, 4]},
 ]
 
 
@@ -398,7 +406,7 @@ def _exhaustive_small():
 
 def cases(rng: random.Random, tier: str):
     out = [dict(c, shape="corpus") for c in CORPUS]
-    n_struct, n_rand = (QUICK_STRUCTURED, QUICK_RANDOM) if tier == "quick" else (100000, 200000)
+    n_struct, n_rand = (100000, 200000) if tier == "thorough" else (QUICK_STRUCTURED, QUICK_RANDOM)
     gens = [f for f, w in STRUCTURED for _ in range(w)]
     for _ in range(n_struct):
         c = rng.choice(gens)(rng)
@@ -408,7 +416,7 @@ def cases(rng: random.Random, tier: str):
         c = _random_case(rng)
         c["shuffle_seed"] = rng.randrange(1 << 30)
         out.append(c)
-    if tier == "thorough":
+    if tier in ("thorough", "escalated"):
         out += _exhaustive_small()
     return out
 
@@ -607,22 +615,24 @@ def _oracle(case, out):
         if not (S & V) and set(P) != V:
             return f"pre: no member of S in the graph, yet {P} is not all nodes"
     if op == "nodes_in_directed_paths":
-        # nodes on simple directed paths from S to T.  The implementation for acyclic graphs counts paths with at least one
-        # edge and ignores arguments that are not nodes; the one for cyclic graphs (nx.all_simple_paths) also yields the
-        # trivial path [s] for s in S & T and raises NodeNotFound for a non-node (when both sets are non-empty).
+        # ONE definition for both implementations: the nodes on simple directed paths WITH AT LEAST ONE EDGE from a member of
+        # S to a member of T (so a member of S & T is returned only if it lies on such a path).  Non-node arguments: the
+        # implementation for acyclic graphs ignores them, the one for cyclic graphs (nx.all_simple_paths) raises
+        # NodeNotFound when both sets are non-empty; the oracle has no opinion there (the property quantifies over node
+        # subsets), the theorems nodesInDirectedPaths_dag_spec / _cyclic_error say which is which.
         S, T = set(case["S"]), set(case["T"])
         cyc = _is_cyclic(V, di)
-        if cyc and S and T and not (S <= V and T <= V):
-            return None if out[0] == "err" else f"nodes_in_directed_paths: non-node argument accepted on a cyclic graph: {out}"
+        if not (S <= V and T <= V):
+            return None         # no opinion: the model and the real code must still agree (correspondence)
         if out[0] != "ok":
             return f"nodes_in_directed_paths failed: {out}"
         exp = set()
 
         def dfs(path, t):
             cur = path[-1]
-            if cur == t and (cyc or len(path) > 1):
+            if cur == t and len(path) > 1:
                 exp.update(path)
-                return          # a simple path ends at its first visit of the target (also the trivial path)
+                return          # a simple path ends at its first visit of the target
             for (u, w) in di:
                 if u == cur and w not in path:
                     dfs(path + [w], t)
